@@ -537,6 +537,8 @@ def write_evidence(chk, tier, seed, pr, cases, impl, model, extra, nviol, wall, 
     if "coqchk_axioms" in pr:
         cov["coqchk_axioms"] = pr["coqchk_axioms"]
     cov.update(extra)
+    if "exhaustive" in cov and not isinstance(cov["exhaustive"], bool):
+        cov["exhaustive_note"] = str(cov.pop("exhaustive"))
     ev = {"property_id": chk.pid, "tier": tier, "seed": seed, "level": "proof", "coverage": cov,
           "assumptions": [chk.level_note] if getattr(chk, "level_note", None) else [],
           "wall_s": round(wall, 2), "violations": nviol}
